@@ -9,15 +9,17 @@ use std::cell::RefCell;
 use std::sync::Arc;
 
 pub mod frim;
-pub mod ribq;
 pub mod bmp_io;
+pub mod c09;
 pub mod bmp_sm;
 pub mod c17;
 pub mod ingress;
 pub mod codec;
 pub mod http;
 pub mod rib;
+pub mod ribq;
 pub mod gate;
+pub mod roto;
 
 /// A pause-point handler installed per thread by a harness.
 pub type PointFn = Arc<dyn Fn(&'static str) + Send + Sync>;
